@@ -9,7 +9,7 @@ HERE = os.path.dirname(os.path.abspath(__file__))
 CLAIMS = {
     "C08": (
         "disposition-table extraction + return summaries + abstract kind evaluation (go/types, go/ssa)",
-        "Decides the kind-level null-data algebra exhaustively on the operator disposition matrices written in the source: for every arithmetic/bit/dot/min/max operator and every ordered kind pair the cell function is resolved and classified by a computed return summary, and the statement's clauses (absent identity, absent∘absent, unary of absent, empty with number, error absorbs, commutative symmetry, populated cells, absent-rvalue skip, compound operators, is_* truth tables) are checked cell by cell. It does not decide numeric results or evaluator reachability.",
+        "Decides the kind-level null-data algebra exhaustively on the operator disposition matrices written in the source: for every arithmetic/bit/dot/min/max operator and every ordered kind pair the cell function is resolved and classified by a computed return summary, and the statement's clauses (absent identity, absent∘absent, unary of absent, empty with number, error absorbs, commutative symmetry, populated cells, absent-rvalue skip, compound operators, is_* truth tables) are checked cell by cell. Also: the dispatching function of every matrix operator has no way out besides its matrix; && and || are evaluated abstractly over true/false/non-boolean/empty/absent/error and equal the documented 6x6 tables of the null-data reference in all 72 cells. It does not decide numeric results or evaluator reachability.",
         "Trusts go/types+go/ssa, the overlay stub for the emptied generated parser, and that a cell function's return statements determine its result kind (computed, not assumed). Known deviations are listed per cell in known_findings.jsonl.",
         "DESIGN.md §3 C08",
     ),
@@ -17,20 +17,20 @@ CLAIMS = {
 
 CLAIMS["C17"] = (
     "path rules / typestate over SSA control-flow graphs (error-before-marker, drain-after-done, checked flush), who-may-exit call-graph rule, dropped-error enumeration",
-    "Decides that every error that is raised reaches a non-zero exit in every send/receive order: on every CFG path a verb's error is posted before the end-of-stream marker, the writer posts before done, every done-waiter drains the error channels afterwards, Flush/Close errors of output are returned, no module error result on the data path is discarded (1 000+ call sites enumerated, discards classified), failed low-level reads are reported and end the read loop, os.Exit only from the keep-list with non-zero constant status, exitOnError always exits, and the message next to a failure exit goes to stderr. It does not decide that a reader detects a given malformed input.",
+    "Decides that every error that is raised reaches a non-zero exit in every send/receive order: on every CFG path a verb's error is posted before the end-of-stream marker, the writer posts before done, every done-waiter drains the error channels afterwards, Flush/Close errors of output are returned, no module error result on the data path is discarded (1 000+ call sites enumerated, discards classified), failed low-level reads are reported and end the read loop, os.Exit only from the keep-list with non-zero constant status, exitOnError always exits, and the message next to a failure exit goes to stderr. Also: the exit state of a prepipe child is examined at end of file; the error of every Flush / Close / Write / Rename / Chmod in the output, stream and entry-point packages is, on each path, compared, returned, sent or passed on before it can be overwritten; a read error becomes nil only under an end-of-file test. It does not decide that a reader detects a given malformed input.",
     "Trusts go/ssa's CFG, that select picks among ready channels arbitrarily, that a send on a full buffered channel blocks, and that bufio.Writer errors are sticky. Frozen exception tables (exit keep-list, tolerated discards) are in checker/exits.go and checker/c17.go with one reason per entry.",
     "DESIGN.md §3 C17",
 )
 CLAIMS["C19"] = (
     "typestate on the SSA CFG of entrypoint.processFileInPlace + value-flow (who may touch the target) + dominance + table agreement of the refusal helpers",
-    "Decides the code half of the crash-consistency claim on every path, including all error paths: the target name flows only to stat/read/rename-destination/chmod; rename is reached only after Stream returned nil (whose nil return implies a checked Flush) and both closes succeeded; every failing exit after CreateTemp removes the temp file; refusals precede CreateTemp; temp is in the target's directory; per-file re-parse, one file per stream, stop at first error; chmod uses the pre-temp mode; no unexpected os.Exit reachable inside the stream. The file system's atomic rename is trusted, not decided.",
+    "Decides the code half of the crash-consistency claim on every path, including all error paths: the target name flows only to stat/read/rename-destination/chmod; rename is reached only after Stream returned nil (whose nil return implies a checked Flush) and both closes succeeded; every failing exit after CreateTemp removes the temp file; refusals precede CreateTemp; temp is in the target's directory; per-file re-parse, one file per stream, stop at first error; chmod uses the pre-temp mode; no unexpected os.Exit reachable inside the stream. Also: lib.SeedRandom and lib.SetTZFromEnv are called from the per-file command-line parse and from nowhere in the entry point. The file system's atomic rename is trusted, not decided.",
     "Trusts rename(2) atomicity within a directory and go/ssa. The keep-list of exit sites is frozen in checker/exits.go.",
     "DESIGN.md §3 C19",
 )
 
 CLAIMS["C04"] = (
     "path rules on SSA CFGs with callee summaries (end-of-stream forwarding, reader/scanner termination, flush-after-write), channel-send classification, call-graph reachability (stdout, shared globals), lock-region check, AST classification of map ranges",
-    "Decides the protocol obligations termination and schedule-independence rest on, for every verb, reader and scanner: end-of-stream forwarded on every path of all RecordTransformer implementations (through function-valued fields); readers end with exactly one marker; scanners send the pending batch then close once; every bool back-channel send is non-blocking; no stdout write reachable from reader/verb goroutines; flush follows every write under FlushOnEveryRecord; every package-level variable written from pipeline goroutines is locked; one seeded randomness owner; no order-sensitive iteration over built-in maps; reader state shadowed per batch is written back. It does not decide byte-equality of outputs across batch sizes or timing.",
+    "Decides the protocol obligations termination and schedule-independence rest on, for every verb, reader and scanner: end-of-stream forwarded on every path of all RecordTransformer implementations (through function-valued fields); readers end with exactly one marker; scanners send the pending batch then close once; every bool back-channel send is non-blocking; no stdout write reachable from reader/verb goroutines; flush follows every write under FlushOnEveryRecord; every package-level variable written from pipeline goroutines is locked; one seeded randomness owner; no order-sensitive iteration over built-in maps; reader state shadowed per batch is written back. Also: no function both returns a handle and starts a goroutine that closes it; a select case that receives a done signal inside a loop leaves the loop or changes state the loop tests. It does not decide byte-equality of outputs across batch sizes or timing.",
     "Trusts go/ssa, the VTA call graph over-approximation for reachability, and Go channel semantics (send on a full buffered channel blocks; select with default does not). Frozen exceptions with reasons in checker/c04.go.",
     "DESIGN.md §3 C04",
 )
@@ -51,7 +51,7 @@ CLAIMS["C12"] = (
 
 CLAIMS["C05"] = (
     "sibling cross-check of all IRecordReader implementations by typestate/path rules on SSA, upward-exposed-field analysis for per-file resets, store-effect extraction, cursor write-back path rule over all verb parsers",
-    "Decides the bookkeeping discipline behind NR/FNR/FILENAME and file concatenation for every reader: exact store effects of the two context updates; every record created after exactly one count on every path; one file-start per handle before any production; every batch-carried reader field reset per file; all readers open inputs through the same helpers with the same options; NF read from the live record; every verb CLI parser stores the argument cursor back on every successful return. It does not decide 'then' ≡ pipe or the values of NR in end blocks.",
+    "Decides the bookkeeping discipline behind NR/FNR/FILENAME and file concatenation for every reader: exact store effects of the two context updates; every record created after exactly one count on every path; one file-start per handle before any production; every batch-carried reader field reset per file; all readers open inputs through the same helpers with the same options; NF read from the live record; every verb CLI parser stores the argument cursor back on every successful return. Also: an append to the output list inside a loop appends a value created in that loop (no aliased record emitted twice). It does not decide 'then' ≡ pipe or the values of NR in end blocks.",
     "Trusts go/ssa; batch functions reached through function-valued reader fields are resolved from the stores into those fields.",
     "DESIGN.md §3 C05",
 )
@@ -65,13 +65,13 @@ CLAIMS["C03"] = (
 
 CLAIMS["C09"] = (
     "table extraction of the collation and <=>/relational matrices, order-theoretic checks (antisymmetry, transitivity via documented rank), abstract kind evaluation of kernels, mirror-shape check of comparator pairs, AST decision extraction of the sort verb's flag parser",
-    "Decides what sorting needs from its comparison functions: the collation matrix is antisymmetric, total and in the documented kind order with the two mixed classes; kernels cannot abort in the cells they occupy; descending comparators mirror ascending ones; <=> returns only ints and is antisymmetric on constant cells, relational operators return only booleans; each sort flag spelling appends the comparator family/polarity it names with one comparator per field; key-less records are set aside. It does not decide that a run is an ordered permutation, stability, or natural-order details.",
+    "Decides what sorting needs from its comparison functions: the collation matrix is antisymmetric, total and in the documented kind order with the two mixed classes; kernels cannot abort in the cells they occupy; descending comparators mirror ascending ones; <=> returns only ints and is antisymmetric on constant cells, relational operators return only booleans; each sort flag spelling appends the comparator family/polarity it names with one comparator per field; key-less records are set aside. Also: no order kernel or comparator subtracts the two integers it orders; every slice field in which a verb sets records aside is read on every path of its end-of-stream branch. It does not decide that a run is an ordered permutation, stability, or natural-order details.",
     "Trusts go/types+go/ssa; the documented collation order and the flag table of sort are frozen in checker/c09.go.",
     "DESIGN.md §3 C09",
 )
 CLAIMS["C10"] = (
     "unchecked-result rule (guard dominance, merged ok-phis, assertions) over all key-selector call sites; field-type inventory of verb state; call-shape check of accumulators",
-    "Narrow claim: decides three structural clauses for the aggregating verbs — records lacking a group-by/value field are left out (every key selector's ok result is branched on, values used only on the true edge); grouping state is ordered (no verb iterates a built-in map field into output); sum/min/max accumulators combine through the int-preserving BIFs; whole-record distinctness keys include field names. Every numerical result (sums, variances, percentiles, windows, ties) is NOT decided.",
+    "Narrow claim: decides three structural clauses for the aggregating verbs — records lacking a group-by/value field are left out (every key selector's ok result is branched on, values used only on the true edge); grouping state is ordered (no verb iterates a built-in map field into output); sum/min/max accumulators combine through the int-preserving BIFs; whole-record distinctness keys include field names. Every numerical result (sums, variances, percentiles, windows, ties) is NOT decided. Also: every accumulator Reset stores every field its Ingest stores; keys that stand for a list of values or keys (group-by keys, schema keys) are built with length-prefixed elements, never with a bare separator between raw elements.",
     "Trusts go/ssa. Frozen exceptions (per-element nil handling in step, join bucket keeper) with reasons in checker/c10.go.",
     "DESIGN.md §3 C10",
 )
@@ -84,14 +84,14 @@ CLAIMS["C11"] = (
 
 CLAIMS["C14"] = (
     "grammar-source reader (precedence chain of mlr.bnf) compared with the documented table and the BIF registry; push/pop typestate, pool-clearing path rule, payload-propagation check, field invariant of TypeGatedMlrvalVariable.value, evaluate→push→bind ordering, loop-shape agreement of the five scope walks",
-    "Decides structural invariants of the interpreter that the language semantics depend on: 17 precedence levels/operators/associativity of the grammar source equal the reference and every operator lexeme is implemented; every frame/frame-set/captures push is popped once on every path; pooled frames are cleared before reuse; every loop/block node propagates return/break payloads and errors; every binding goes through the type gate and copy-on-bind; arguments are evaluated before and bound after the callee's frame push; all five scope walks reach frame 0; interpreter state is per instance and reset per record. Agreement with a reference interpreter over all programs is NOT decided.",
+    "Decides structural invariants of the interpreter that the language semantics depend on: 17 precedence levels/operators/associativity of the grammar source equal the reference and every operator lexeme is implemented; every frame/frame-set/captures push is popped once on every path; pooled frames are cleared before reuse; every loop/block node propagates return/break payloads and errors; every binding goes through the type gate and copy-on-bind; arguments are evaluated before and bound after the callee's frame push; all five scope walks reach frame 0; interpreter state is per instance and reset per record. Agreement with a reference interpreter over all programs is NOT decided. Also: a BREAK payload received from a deeper level of the same loop nest (a recursive call) is returned to the level above.",
     "Trusts go/ssa; the generated LR tables are assumed to implement mlr.bnf (the generated parser is emptied in this snapshot and is not analysed). Three grammar/registry mismatches are known findings.",
     "DESIGN.md §3 C14",
 )
 
 CLAIMS["C07"] = (
     "NONZERO fixpoint for integer divisors, shift-count typing, kind-guard analysis of kernels against their cells, return summaries for int-preservation, operator-signature check (Go operator × operand provenance) of all numeric kernels, conversion-chain scan (int64→float64→int64 feeding an int result)",
-    "Decides the no-crash clause (no integer division/modulus by an unproven divisor, no signed non-constant shift) and the dispatch wiring of every arithmetic/bit/min/max/relational operator: one matrix per operator, kernels accept the kinds of their cells, documented int-preserving cells build no float and mixed cells return floats, each numeric kernel applies the Go operator the DSL operator denotes with the left operand on the left, and no integer result is produced by converting an integer operand to float64 and back without any test of an operand or of the float (the absence of a test is decided lossy beyond 2^53; whether a present test is the right one is not decided). Exactness, overflow detection and sign conventions are otherwise NOT decided (value-level).",
+    "Decides the no-crash clause (no integer division/modulus by an unproven divisor, no signed non-constant shift) and the dispatch wiring of every arithmetic/bit/min/max/relational operator: one matrix per operator, kernels accept the kinds of their cells, documented int-preserving cells build no float and mixed cells return floats, each numeric kernel applies the Go operator the DSL operator denotes with the left operand on the left, and no integer result is produced by converting an integer operand to float64 and back without any test of an operand or of the float (the absence of a test is decided lossy beyond 2^53; whether a present test is the right one is not decided). Also: the float64 result of GetNumericToFloatValue is converted back to an integer only where the int case was handled separately. Exactness, overflow detection and sign conventions are otherwise NOT decided (value-level).",
     "Trusts go/ssa; a - b written as a + (-b) is accepted (equal except at the int64 minimum). Frozen divisor exceptions with reasons in checker/nonzero.go.",
     "DESIGN.md §3 C07",
 )
@@ -118,7 +118,7 @@ CLAIMS["C06"] = (
 
 CLAIMS["C01"] = (
     "escape-table extraction from byte switches (AST + constants) with inverse/coverage checks; backward string-origin analysis over SSA (every output write of the TSV writer, every record/header store of the TSV reader); trigger-set extraction of the needs-quoting predicates; path enumeration of the quoted-field writer's cases; reachability from reader constructors (replacement inverses, built-in map iteration)",
-    "Decides the table-agreement clause that round-tripping rests on: TSV encode/decode tables are inverse, cover exactly the IANA set and work byte-wise, and every key/value written and every header/data cell read passes through them; CSV and DKVPX needs-quoting predicates cover every byte the reader treats as structure, quote doubling is matched, no quoted special byte is dropped and the reader rewrites nothing inside quotes; the JSON string escape table covers quote, backslash and all control bytes with the RFC 8259 pairs and a four-hex-digit \\u form, for keys and values; the PPRINT empty-value token agrees; every constant replacement a writer applies has its inverse in the reader; no reader builds records through a Go map. It does not decide round-trip equality on data, widths/padding, ragged handling, BOM/CR-LF autodetection, or what an external RFC reader accepts.",
+    "Decides the table-agreement clause that round-tripping rests on: TSV encode/decode tables are inverse, cover exactly the IANA set and work byte-wise, and every key/value written and every header/data cell read passes through them; CSV and DKVPX needs-quoting predicates cover every byte the reader treats as structure, quote doubling is matched, no quoted special byte is dropped and the reader rewrites nothing inside quotes; the JSON string escape table covers quote, backslash and all control bytes with the RFC 8259 pairs and a four-hex-digit \\u form, for keys and values; the PPRINT empty-value token agrees; every constant replacement a writer applies has its inverse in the reader; no reader builds records through a Go map. Also: as long as the quoted writer turns LF into CR LF under --ors crlf, the reader turns CR LF inside quotes back into LF (the two sides agree with each other). It does not decide round-trip equality on data, widths/padding, ragged handling, BOM/CR-LF autodetection, or what an external RFC reader accepts.",
     "Trusts go/types constant folding, go/ssa, encoding/json and yaml.v3 for JSON/YAML decoding, and the frozen standard sets (IANA TSV escapes, RFC 4180 structure bytes, RFC 8259 escape pairs). Six deviations are known findings (CR dropped under --ors crlf, CR LF inside quotes read as LF, markdown pipe escape without inverse, YAML key order x3); two defects were fixed (TSV header cells not decoded, TSV writer replacing non-UTF-8 bytes).",
     "DESIGN.md §3 C01",
 )
